@@ -6,9 +6,9 @@ from vlib import *
 # every run: dict(args for `harness walk`) ; the LTS comes from MC_Tree_small unless stated
 
 
-def W(cfg, mode, names='ascii', b=1, frac=1.0, walks=0, length=0, split=False, light=False, lts='small', max_events=10**9, lower_only=False):
+def W(cfg, mode, names='ascii', b=1, frac=1.0, walks=0, length=0, split=False, light=False, lts='small', max_events=10**9, lower_only=False, ops=''):
     return dict(kind='walk', cfg=cfg, mode=mode, names=names, b=b, frac=frac, walks=walks, len=length, split=split, light=light, lts=lts,
-                max_events=max_events, lower_only=lower_only)
+                max_events=max_events, lower_only=lower_only, ops=ops)
 
 
 def group_runs(g, tier):
@@ -98,6 +98,14 @@ def group_runs(g, tier):
                 runs.append(dict(kind='tree2', cfg1=c1, cfg2=c2, names=['ascii', 'prefix', 'dotted', 'multi'][k % 4], b=[1, 1, 4096, 8193][k % 4] if q else [1, 2731, 8193, 21846][k % 4],
                                  frac=(0.004 if heavy else 0.008) if q else 0.25, inst='MC_Tree2_q', tspec='Trace_Tree2'))
         return runs
+    if g == 'times':
+        T = 'set_time,append_file,create_file,create_dir,remove_file'
+        k = 1 if q else 25
+        return [W('mem', 'random', walks=30 * k, length=50, ops=T), W('phys', 'random', walks=20 * k, length=50, ops=T),
+                W('alt(zr,mem)', 'random', walks=15 * k, length=50, ops=T), W('alt(zr/zs,phys)', 'random', walks=10 * k, length=50, ops=T, names='dotted'),
+                W('ovl(mem,mem)', 'random', walks=25 * k, length=50, ops=T, split=True), W('ovl(mem,mem)', 'random', walks=15 * k, length=40, ops=T, split=True, lower_only=True, lts='deep'),
+                W('ovl(phys,phys)', 'random', walks=10 * k, length=40, ops=T, split=True), W('ovl(mem,phys)', 'random', walks=10 * k, length=40, ops=T, split=True, lower_only=True),
+                W('ovl(mem,mem,mem)', 'random', walks=10 * k, length=40, ops=T, split=True, lower_only=True)]
     if g == 'emb':
         return [dict(kind='emb', tspec='Trace_Tree')]
     if g == 'faults':
@@ -154,6 +162,8 @@ def run_group(g, tier, seed, use_cache=True):
                 args.append('--light')
             if r.get('lower_only'):
                 args.append('--lower-only')
+            if r.get('ops'):
+                args += ['--ops', r['ops']]
             s = harness(args)
         elif r['kind'] == 'handles':
             mc = run_mc(r['inst'], r['inst'])
@@ -304,6 +314,7 @@ PROPS = {
     'C08': dict(groups=['ovl']),
     'C09': dict(groups=['ovl']),
     'C06': dict(groups=['join']),
+    'C19': dict(groups=['times', 'tree', 'alt', 'ovl']),
     'C18': dict(groups=['emb']),
     'C20': dict(groups=['faults']),
     'C16': dict(groups=['conc16']),
@@ -443,6 +454,11 @@ MANIFEST_TEXT = {
                 '(not_supported whenever the path layer pre-checks pass) and that the complete observation is unchanged. TLC also model-checks the read-only contract (MC_ReadOnly: refused, unchanged) on the bounded universe.',
                 note='Trusted: TLC; rust-embed derive on the fixture; the fixture is finite, so the (path x operation) space is enumerated completely.',
                 technique='TLA+ read-only Level A (ReadOnlyOp) + exhaustive (path x operation) trace validation against a PhysicalFS ground truth', ref='DESIGN.md 6 C18'),
+    'C19': dict(level=_LVL + 'Timestamps: the harness records the metadata of the target immediately before and after every call; for every set_*_time event TLC (TimesOK) checks that the field reads back exactly the value set '
+                '(tick table: epoch, 1 ns, pre-epoch, years 2100 and 2400, sub-second parts), that the other settable fields are unchanged, that an unsupported or failing setter changes nothing and reports the pinned class, and that the tree and all bytes are unchanged '
+                '(effect conjunct); appends must preserve the creation time where it is settable. A dedicated driver interleaves setters of all three fields in random orders with writes on files and directories on memory, physical, altroot and overlays (entries in lower layers: copy-up).',
+                note=_NOTE + ' Fields a configuration cannot set (e.g. creation time on physical) are not required to survive an adapter copy-up.',
+                technique='TLA+ TimesOK on pre/post metadata of every setter and append event (trace validation)', ref='DESIGN.md 6 C19'),
     'C20': dict(level='Fault enumeration judged by TLC: a FaultFS wrapper (public FileSystem trait) makes the k-th call into a base filesystem return an I/O error. For seeded (model state, operation) pairs of the Level-A LTS '
                 '(biased to composites and adapter operations) and for observer operations (exists, is_dir, is_file, metadata, read_dir, walk_dir, read_to_string), the fault-free run is probed for its call count n and the operation is re-run '
                 'on an identically rebuilt world for EVERY k in 1..n, on plain, altroot, overlay (fault in the upper or in a lower layer, 2-3 layers) and nested stackings. TLC (Trace_Tree/TrFault) accepts success only with the complete Level-A effect and value, '
